@@ -54,8 +54,14 @@ def ref_peer(peer):
     return p
 
 
-def evaluate_both(pol, peer):
-    policy = Policy(policy_data=R.policy_text(pol))
+def evaluate_both(pol, peer, old_format=False):
+    import contextlib
+    import io
+    if old_format:
+        with contextlib.redirect_stdout(io.StringIO()):       # the deprecation warning is printed while loading
+            policy = Policy(policy_data=R.policy_text_old_format(pol))
+    else:
+        policy = Policy(policy_data=R.policy_text(pol))
     banner, kex = tool_peer(peer)
     passed, errs, errstr = policy.evaluate(banner, kex)
     got = set()
@@ -65,9 +71,9 @@ def evaluate_both(pol, peer):
     return passed, got, want, errs, errstr
 
 
-def check_pair(pol, peer, st, family):
+def check_pair(pol, peer, st, family, old_format=False):
     try:
-        passed, got, want, errs, errstr = evaluate_both(pol, peer)
+        passed, got, want, errs, errstr = evaluate_both(pol, peer, old_format)
     except Exception as e:   # the tool raised
         st.violation('%s:exception:%s' % (family, type(e).__name__), {'policy': pol, 'peer': peer, 'what': str(e)})
         st.execution(None, outcome=('exc',), root=(family, json.dumps(pol, sort_keys=True), json.dumps(peer, sort_keys=True)))
@@ -219,6 +225,8 @@ def work(chunk, st, tier):
             passed = check_pair(pol, peer, st, family)
             if passed:
                 metamorphic(pol, peer, st, family)
+            if family == 'sizes' and R.old_format_expressible(pol):
+                check_pair(pol, peer, st, 'sizes-deprecated-directives', old_format=True)
             if st.evaluations % 20000 == 5:
                 st.sample({'family': family, 'policy': pol, 'peer': {k: peer[k] for k in ('key', 'kex', 'ciphers', 'macs', 'host_keys', 'dh')}, 'passed': passed})
 
